@@ -14,8 +14,9 @@ RULE = (
     "against every block/region/variable name present in the graphs sharing the generator, "
     "add_block never replaces a block of another type): (a) random sequences of 20-200 name "
     "requests over block/region/variable kinds incl. kinds shared between them; (b) graphs whose "
-    "block names lie in the generator's own namespace (synth_asign_block_0, loop_region_0, ...) "
-    "through all stages; (c) stage pipelines interleaved with to_dict/from_dict and to_yaml/"
+    "block names lie in the generator's own namespace (synth_asign_block_0, loop_region_0, "
+    "indices 0..100, runs of one kind such as _9/_10) through all stages, built by SCFG(graph) "
+    "and, every third one, by add_block on an empty SCFG; (c) stage pipelines interleaved with to_dict/from_dict and to_yaml/"
     "from_yaml reloads at every stage boundary. After every stage the names of all blocks present "
     "before must still be present and unique. distinct = hash of (graph, history); non-trivial = "
     "at least 3 names were handed out while at least one graph was registered"
@@ -88,7 +89,7 @@ def staged(case, acc, reloads):
     attach.ACTIVE.clear()
     N.reset()
     g = {k: tuple(v) for k, v in case["g"].items()}
-    scfg = drivers.make_scfg(g, "bytecode")
+    scfg = drivers.make_scfg(g, "bytecode", case.get("how", "ctor"))
     before_all = set(g)
     phase = "stages"
     for i, st in enumerate("JLB"):
@@ -158,8 +159,10 @@ def run_shard(spec):
             g = graphs.make_case("names_namespace", spec["seed"], i)
             if g is None:
                 continue
-            staged({"kind": "namespace", "g": g, "reloads": {}}, acc, {})
+            how = "add_block" if i % 3 == 2 else "ctor"
+            staged({"kind": "namespace", "g": g, "reloads": {}, "how": how}, acc, {})
             acc.counters["namespace_graphs"] += 1
+            acc.counters["namespace_graphs.built_by_" + how] += 1
     elif k == "reload":
         for i in range(spec["start"], spec["start"] + spec["count"]):
             rng = random.Random(f"c18l/{spec['seed']}/{i}")
